@@ -93,7 +93,9 @@ def _init_strategy(tier):
                         "spacing": draw(gen.floats(0.03, 0.2, 32)),
                         "pose": draw(bodies.pose_spec(planar=(dim == 2))), "radius": draw(gen.floats(0.15, 0.35, 32)),
                         # forcing clock at construction: fresh runs, restarted runs, long runs (clock huge compared with dt)
-                        "t0": draw(st.sampled_from([0.0, 0.0, 2.5, 1234.5, 2.5e6, 1.0e9]))} for k in kinds],
+                        "t0": draw(st.sampled_from([0.0, 0.0, 2.5, 1234.5, 2.5e6, 1.0e9])),
+                        # thread count handed to the interaction (the examples pass the simulator's): no effect on any result
+                        "threads": draw(st.sampled_from([False, False, 1, 2, 3]))} for k in kinds],
             "flow": draw(gen.vector_field_spec(3, kinds=["poly", "noise", "mixed", "bumps", "constant"], max_mag_exp=3)),
         }
 
@@ -160,7 +162,8 @@ def _step(s, op, ctx):
             bd = {"kind": bspec["kind"], "I": None, "V": None, "t": bspec["t0"], "S_I": 0.0, "hist": []}
             kw = dict(eul_grid_forcing_field=s["E"], eul_grid_velocity_field=s["u"],
                       virtual_boundary_stiffness_coeff=bspec["k"], virtual_boundary_damping_coeff=bspec["c"], dx=dx, grid_dim=dim,
-                      real_t=real_t, enable_eul_grid_forcing_reset=op["reset"], start_time=bspec["t0"])
+                      real_t=real_t, enable_eul_grid_forcing_reset=op["reset"], start_time=bspec["t0"],
+                      num_threads=bspec.get("threads", False))
             with ctx.repo_call(f"constructing interaction for body {bi} ({bspec['kind']})"):
                 if bspec["kind"].startswith("harness"):
                     n = 7 if bspec["kind"] == "harness7" else 33
